@@ -862,25 +862,23 @@ Proof.
 Qed.
 
 Section StepFacts.
-Variables (c : config) (h : hstate) (e : event) (now : N) (d : draws).
-Let h' := fst (step c h e now d).
-Let o := snd (step c h e now d).
-Let B := fun x => occ x h + cnt x (new_ids e d).
+(* for any bound B, state h' and outputs o of the shape established by [step_conservation] *)
+Variables (B : N -> nat) (h' : hstate) (o : list output).
+Hypothesis SC : StepShape B h' o.
 
 Lemma step_occ_le : forall x, occ x h' <= B x.
 Proof.
-  intros x. destruct (step_conservation c h e now d) as [A|(o0 & na & rid & rb & _ & _ & _ & A)];
-    specialize (A x); cbv beta in A; subst h' B; cbv beta; lia.
+  intros x. destruct SC as [A|(o0 & na & rid & rb & _ & _ & _ & A)];
+    specialize (A x); lia.
 Qed.
 
 Lemma step_mention_live : forall x b, In (x, b) (tagged h' o) -> 1 <= B x.
 Proof.
-  intros x b H. destruct (step_conservation c h e now d) as [A|(o0 & na & rid & rb & A1 & A2 & A3 & A)].
-  - apply tagged_in_men in H. specialize (A x). cbv beta in A. subst h' o B. cbv beta. lia.
-  - subst o. rewrite A1, tagged_app in H. apply in_app_or in H. destruct H as [H|H].
-    + apply tagged_in_men in H. specialize (A x). cbv beta in A. subst B. cbv beta. lia.
-    + cbn in H. destruct H as [H|[]]. inversion H; subst. specialize (A x). cbv beta in A.
-      subst B. cbv beta. fold h' in A2. lia.
+  intros x b H. destruct SC as [A|(o0 & na & rid & rb & A1 & A2 & A3 & A)].
+  - apply tagged_in_men in H. specialize (A x). lia.
+  - rewrite A1, tagged_app in H. apply in_app_or in H. destruct H as [H|H].
+    + apply tagged_in_men in H. specialize (A x). lia.
+    + cbn [tagged flat_map about app] in H. destruct H as [H|[]]. inversion H; subst. specialize (A x). lia.
 Qed.
 
 Hypothesis uniq : forall x, B x <= 1.
@@ -890,10 +888,10 @@ Lemma step_shape_tagged :
   \/ exists l0 rid, tagged h' o = l0 ++ [(rid, false)] /\ 1 <= occ rid h' /\
        forall x, occ x h' + cnt x (map fst l0) <= B x.
 Proof.
-  destruct (step_conservation c h e now d) as [A|(o0 & na & rid & rb & A1 & A2 & A3 & A)].
+  destruct SC as [A|(o0 & na & rid & rb & A1 & A2 & A3 & A)].
   - left. intros x. rewrite men_tagged. apply A.
-  - right. exists (tagged h' o0), rid. subst o. rewrite A1, tagged_app. fold h' in A2. split; [|split; [exact A2|]].
-    + f_equal. cbn. destruct (occ rid h') eqn:E; [lia|reflexivity].
+  - right. exists (tagged h' o0), rid. rewrite A1, tagged_app. split; [|split; [exact A2|]].
+    + f_equal. cbn [tagged flat_map about app is_terminal]. destruct (occ rid h') eqn:E; [lia|reflexivity].
     + intros x. rewrite men_tagged. apply A.
 Qed.
 
@@ -912,11 +910,10 @@ Proof.
     rewrite cnt_cons, eqn_refl in A. lia.
   - rewrite A1 in H.
     assert (X : exists l2', l2 = l2' ++ [(rid, false)] /\ l0 = l1 ++ (x, true) :: l2').
-    { destruct (exists_last (l := l2)) as [[l2' [y Hy]]|]. 
-      - intros ->. apply (f_equal (@rev _)) in H. rewrite !rev_app_distr in H. cbn in H. inversion H.
+    { destruct (@exists_last _ l2) as (l2' & y & Hy).
+      - intros ->. apply app_inj_tail in H. destruct H as [_ H]. discriminate.
       - subst l2. exists l2'. change (l1 ++ (x, true) :: l2' ++ [y]) with (l1 ++ ((x, true) :: l2') ++ [y]) in H.
-        rewrite app_assoc in H. apply app_inj_tail in H. destruct H as [H1 H2]. subst. auto.
-      - discriminate. }
+        rewrite app_assoc in H. apply app_inj_tail in H. destruct H as [H1 H2]. subst. auto. }
     destruct X as (l2' & -> & ->). specialize (A x). specialize (uniq x).
     rewrite map_app, cnt_app in A. cbn [map fst] in A. rewrite cnt_cons, eqn_refl in A.
     rewrite map_app, cnt_app. cbn [map fst]. rewrite cnt_single.
@@ -926,16 +923,176 @@ Qed.
 Lemma step_nonterminal_is_partial : forall na x rb,
   In (OEvent (HResponse na x rb)) o -> occ x h' <> 0 -> nonfinal rb.
 Proof.
-  intros na x rb H Hocc. destruct (step_conservation c h e now d) as [A|(o0 & na' & rid & rb' & A1 & A2 & A3 & A)].
-  - exfalso. specialize (A x). specialize (uniq x). cbv beta in A. fold h' o in A.
+  intros na x rb H Hocc. destruct SC as [A|(o0 & na' & rid & rb' & A1 & A2 & A3 & A)].
+  - exfalso. specialize (A x). specialize (uniq x).
     assert (1 <= men x o).
     { apply in_split in H. destruct H as (p1 & p2 & ->). rewrite men_app. cbn [men about]. rewrite eqn_refl. lia. }
-    subst B. cbv beta in uniq. lia.
-  - fold o in A1. rewrite A1 in H. apply in_app_or in H. destruct H as [H|[H|[]]].
-    + exfalso. specialize (A x). specialize (uniq x). cbv beta in A. fold h' in A.
+    lia.
+  - rewrite A1 in H. apply in_app_or in H. destruct H as [H|[H|[]]].
+    + exfalso. specialize (A x). specialize (uniq x).
       assert (1 <= men x o0).
       { apply in_split in H. destruct H as (p1 & p2 & ->). rewrite men_app. cbn [men about]. rewrite eqn_refl. lia. }
-      subst B. cbv beta in uniq. lia.
+      lia.
     + inversion H; subst. exact A3.
 Qed.
 End StepFacts.
+
+(* ------------------------------------------------------------------------------------------ *)
+(* runs *)
+
+(* the ids held in h and the ids the events will introduce are pairwise distinct *)
+Definition Uniq (h : hstate) (ids : list N) : Prop := forall x, occ x h + cnt x ids <= 1.
+
+Lemma run_new_ids_cons : forall e now d rest, run_new_ids ((e, now, d) :: rest) = new_ids e d ++ run_new_ids rest.
+Proof. reflexivity. Qed.
+
+Lemma run_cons_fst : forall c h e now d rest,
+  fst (run c h ((e, now, d) :: rest)) = fst (run c (fst (step c h e now d)) rest).
+Proof.
+  intros c h e now d rest. cbn [run]. destruct (step c h e now d) as [h1 o]. cbn [fst].
+  destruct (run c h1 rest) as [h2 os]. reflexivity.
+Qed.
+
+Lemma Uniq_step : forall c h e now d rest, Uniq h (run_new_ids ((e, now, d) :: rest)) ->
+  Uniq (fst (step c h e now d)) (run_new_ids rest) /\ (forall x, occ x h + cnt x (new_ids e d) <= 1).
+Proof.
+  intros c h e now d rest U. split; intros x; specialize (U x); rewrite run_new_ids_cons, cnt_app in U.
+  - pose proof (step_occ_le _ _ _ (step_conservation c h e now d) x). cbv beta in *. lia.
+  - lia.
+Qed.
+
+Lemma run_occ_le : forall c evs h x, occ x (fst (run c h evs)) <= occ x h + cnt x (run_new_ids evs).
+Proof.
+  intros c. induction evs as [|[[e now] d] rest IH]; intros h x.
+  - cbn [run fst run_new_ids flat_map]. unfold cnt. cbn [count_occ]. lia.
+  - rewrite run_cons_fst, run_new_ids_cons, cnt_app. specialize (IH (fst (step c h e now d)) x).
+    pose proof (step_occ_le _ _ _ (step_conservation c h e now d) x). cbv beta in *. lia.
+Qed.
+
+(* an id that is neither held nor introduced later is never mentioned *)
+Lemma run_silent : forall c evs h x, occ x h = 0 -> ~ In x (run_new_ids evs) -> ~ In x (map fst (run_tagged c h evs)).
+Proof.
+  intros c. induction evs as [|[[e now] d] rest IH]; intros h x H0 Hn; cbn [run_tagged map]; [tauto|].
+  rewrite run_new_ids_cons, in_app_iff in Hn. apply cnt_zero_notin. rewrite map_app, cnt_app.
+  assert (Hn1 : cnt x (new_ids e d) = 0) by (apply cnt_zero_notin; tauto).
+  assert (A : cnt x (map fst (tagged (fst (step c h e now d)) (snd (step c h e now d)))) = 0).
+  { apply cnt_zero_notin. intros Hin. apply in_map_iff in Hin. destruct Hin as [[y b] [E Hin]]. cbn [fst] in E. subst y.
+    pose proof (step_mention_live _ _ _ (step_conservation c h e now d) x b Hin). cbv beta in *. lia. }
+  assert (A2 : cnt x (map fst (run_tagged c (fst (step c h e now d)) rest)) = 0).
+  { apply cnt_zero_notin. apply IH; [|tauto].
+    pose proof (step_occ_le _ _ _ (step_conservation c h e now d) x). cbv beta in *. lia. }
+  lia.
+Qed.
+
+Lemma app_eq_mid : forall {A} (a b l1 l2 : list A) (y : A), a ++ b = l1 ++ y :: l2 ->
+  (exists l2', a = l1 ++ y :: l2' /\ l2 = l2' ++ b) \/ (exists l1', l1 = a ++ l1' /\ b = l1' ++ y :: l2).
+Proof.
+  intros A. induction a as [|z a IH]; intros b l1 l2 y H.
+  - right. exists l1. auto.
+  - destruct l1 as [|w l1]; cbn [app] in H; inversion H; subst.
+    + left. exists a. auto.
+    + destruct (IH _ _ _ _ H2) as [(l2' & E1 & E2)|(l1' & E1 & E2)].
+      * left. exists l2'. subst. auto.
+      * right. exists l1'. subst. auto.
+Qed.
+
+(* nothing about a request id follows its terminal event *)
+Theorem run_nothing_after_terminal : forall c evs h x l1 l2,
+  Uniq h (run_new_ids evs) -> run_tagged c h evs = l1 ++ (x, true) :: l2 -> ~ In x (map fst l2).
+Proof.
+  intros c. induction evs as [|[[e now] d] rest IH]; intros h x l1 l2 U H; cbn [run_tagged] in H.
+  - destruct l1; discriminate.
+  - destruct (Uniq_step c h e now d rest U) as [U1 U2].
+    apply app_eq_mid in H. destruct H as [(l2' & E1 & E2)|(l1' & E1 & E2)].
+    + subst l2. rewrite map_app, in_app_iff. intros [Hin|Hin].
+      * revert Hin. eapply step_nothing_after_terminal; [apply step_conservation|exact U2|exact E1].
+      * revert Hin. apply run_silent.
+        -- eapply step_terminal_dead; [apply step_conservation|exact U2|]. rewrite E1. apply in_elt.
+        -- assert (Hm : In (x, true) (tagged (fst (step c h e now d)) (snd (step c h e now d)))) by (rewrite E1; apply in_elt).
+           pose proof (step_mention_live _ _ _ (step_conservation c h e now d) x true Hm) as X. cbv beta in X.
+           specialize (U x). rewrite run_new_ids_cons, cnt_app in U. apply cnt_zero_notin. lia.
+    + eapply IH; [exact U1|exact E2].
+Qed.
+
+Fixpoint tcount (x : N) (l : list (N * bool)) : nat :=
+  match l with
+  | [] => 0
+  | (y, b) :: t => (if b then eqn y x else 0) + tcount x t
+  end.
+
+Lemma tcount_le_mentions : forall x l, tcount x l <= cnt x (map fst l).
+Proof.
+  intros x. induction l as [|[y b] t IH]; cbn [tcount map fst]; [lia|]. rewrite cnt_cons. destruct b; lia.
+Qed.
+
+Lemma tcount_at_most_one : forall x l,
+  (forall l1 l2, l = l1 ++ (x, true) :: l2 -> ~ In x (map fst l2)) -> tcount x l <= 1.
+Proof.
+  intros x. induction l as [|[y b] t IH]; intros H; cbn [tcount]; [lia|].
+  assert (IH' : tcount x t <= 1).
+  { apply IH. intros l1 l2 E. apply (H ((y, b) :: l1) l2). rewrite E. reflexivity. }
+  destruct b; [|lia]. unfold eqn. destruct (N.eqb y x) eqn:E; [|lia]. apply N.eqb_eq in E. subst y.
+  specialize (H [] t eq_refl). apply cnt_zero_notin in H. pose proof (tcount_le_mentions x t). lia.
+Qed.
+
+(* at most one terminal event per request id *)
+Theorem run_at_most_one_terminal : forall c evs h x,
+  Uniq h (run_new_ids evs) -> tcount x (run_tagged c h evs) <= 1.
+Proof.
+  intros c evs h x U. apply tcount_at_most_one. intros l1 l2 E. eapply run_nothing_after_terminal; eauto.
+Qed.
+
+Lemma Uniq_init : forall ids, NoDup ids -> Uniq init_state ids.
+Proof.
+  intros ids H x. unfold cnt. rewrite (NoDup_count_occ N.eq_dec) in H. specialize (H x).
+  unfold occ. cbn. lia.
+Qed.
+
+(* the ids held in a reachable state are pairwise distinct *)
+Theorem reachable_rids_nodup : forall c evs, NoDup (run_new_ids evs) ->
+  NoDup (all_rids (fst (run c init_state evs))) /\ NoDup (ext_rids (fst (run c init_state evs))).
+Proof.
+  intros c evs H. pose proof (Uniq_init _ H) as U.
+  assert (X : forall x, occ x (fst (run c init_state evs)) <= 1).
+  { intros x. pose proof (run_occ_le c evs init_state x). specialize (U x). lia. }
+  split; apply (NoDup_count_occ N.eq_dec); intros x; specialize (X x).
+  - rewrite <- occ_all_rids. exact X.
+  - pose proof (ext_rids_le x (fst (run c init_state evs))). lia.
+Qed.
+
+Lemma occ_pos_in : forall x h, 1 <= occ x h <-> In x (all_rids h).
+Proof. intros x h. rewrite occ_all_rids. apply (cnt_pos_in x (all_rids h)). Qed.
+
+(* the step-level facts in terms of the lists of ids *)
+Theorem step_terminal_event : forall c h e now d x,
+  (forall y, occ y h + cnt y (new_ids e d) <= 1) ->
+  In (x, true) (tagged (fst (step c h e now d)) (snd (step c h e now d))) ->
+  (In x (all_rids h) \/ In x (new_ids e d)) /\ ~ In x (all_rids (fst (step c h e now d))).
+Proof.
+  intros c h e now d x U H. split.
+  - pose proof (step_mention_live _ _ _ (step_conservation c h e now d) x true H) as X. cbv beta in X.
+    destruct (occ x h) eqn:E.
+    + right. apply cnt_pos_in. lia.
+    + left. apply occ_pos_in. lia.
+  - pose proof (step_terminal_dead _ _ _ (step_conservation c h e now d) U x H) as X.
+    intros Hin. apply occ_pos_in in Hin. lia.
+Qed.
+
+Theorem step_nonterminal_event : forall c h e now d x,
+  In (x, false) (tagged (fst (step c h e now d)) (snd (step c h e now d))) ->
+  In x (all_rids (fst (step c h e now d))).
+Proof.
+  intros c h e now d x H. unfold tagged in H. apply in_flat_map in H. destruct H as (o & _ & H).
+  destruct o as [[| |na rid rb| | |]|]; cbn [about] in H; try contradiction; destruct H as [H|[]]; inversion H; subst.
+  apply occ_pos_in. cbn [is_terminal] in H2. destruct (occ x (fst (step c h e now d))); [discriminate|lia].
+Qed.
+
+Theorem step_nonterminal_is_partial_nodes : forall c h e now d na x rb,
+  (forall y, occ y h + cnt y (new_ids e d) <= 1) ->
+  In (OEvent (HResponse na x rb)) (snd (step c h e now d)) ->
+  In x (all_rids (fst (step c h e now d))) ->
+  exists total recs, rb = RNodes total recs /\ (1 < total)%N.
+Proof.
+  intros c h e now d na x rb U H Hin. apply occ_pos_in in Hin.
+  eapply (step_nonterminal_is_partial _ _ _ (step_conservation c h e now d) U); [exact H|lia].
+Qed.
